@@ -58,4 +58,12 @@ def urlSafeFrom (v : Nat) : Bool := decide (4 ≤ v)
 base64 reference hash (v3), 3 = `$` + URL-safe base64 reference hash (v4 onwards). -/
 def eventIdFormat (v : Nat) : Nat := if v ≤ 2 then 1 else if v = 3 then 2 else 3
 
+/-- Event IDs (room version pages, "Event IDs" / "Event format"). Room versions 1 and 2: the ID is
+`$opaque:server`, assigned by the origin server — not a function of the event (`none`). Room
+version 3: "the event ID is the reference hash of the event encoded using Unpadded Base64, prefixed
+with `$`"; room version 4 onwards the same with the URL-safe alphabet. `refHashB64` is the base64
+text of the reference hash in the version's alphabet (`urlSafeFrom`). -/
+def eventIdOf (v : Nat) (refHashB64 : Str) : Option Str :=
+  if eventIdFormat v = 1 then none else some (36 :: refHashB64)
+
 end Ruma.Spec.Hash
